@@ -45,7 +45,7 @@ class C02(Check):
                        "feat:repeated-key", "feat:qudit-measure", "feat:classical-control", "feat:sympy-condition",
                        "feat:bitmask-condition", "feat:indexed-condition", "feat:pauli-measure", "feat:reset", "feat:subcircuit", "feat:subcircuit-key-map", "feat:subcircuit-rep-ids",
                        "sim:sv", "sim:dm", "sim:clifford", "sim:stab-sampler", "entry:run", "entry:simulate",
-                       "entry:steps", "entry:sample", "entry:run_sweep", "entry:sweep-from-state", "entry:direct-functions", "entry:mux-qudit-reset", "init:density-matrix", "entry:stabilizer-measure", "entry:wide-register", "mux:clifford-only-as-product", "entry:step-sampling", "step-sampling:integer-seed", "direct:sample_from_amplitudes", "direct:measure_density_matrix", "gen:deep-clifford", "init:vector", "init:int", "order:permuted", "order:spectator"]
+                       "entry:steps", "entry:sample", "entry:run_sweep", "entry:sweep-from-state", "entry:direct-functions", "entry:wide-key-control", "entry:mux-qudit-reset", "init:density-matrix", "entry:stabilizer-measure", "entry:wide-register", "mux:clifford-only-as-product", "entry:step-sampling", "step-sampling:integer-seed", "direct:sample_from_amplitudes", "direct:measure_density_matrix", "gen:deep-clifford", "init:vector", "init:int", "order:permuted", "order:spectator"]
 
     def setup(self) -> None:
         from simkit import repoenv
@@ -69,7 +69,7 @@ class C02(Check):
             return self._step_sampling(tape, ctx)
         if tape.chance(1, 12, "stabilizer-measure?"):
             return self._stabilizer_measure(tape, ctx)
-        if tape.chance(1, 40, "wide-register?"):
+        if tape.chance(1, 30, "wide-register?"):
             return self._wide_register(tape, ctx)
         if tape.chance(1, 50, "mux-on-qudit-reset?"):
             return self._mux_qudit_reset(tape, ctx)
@@ -550,6 +550,8 @@ class C02(Check):
             bits = [1] * n
         init = int("".join(map(str, bits)), 2)
         flips = sorted(set(tape.draw(n, "flip") for _ in range(tape.draw(4, "n-flips"))))
+        if tape.chance(1, 3, "wide-key-control?"):
+            return self._wide_key_control(tape, ctx, n, qs)
         kind = "dm" if tape.chance(1, 3, "dm?") else "sv"
         grp = 4 if kind == "dm" else 8       # a joint measurement merges its qubits into one dense state
         circuit = cirq.Circuit([cirq.X(qs[i]) for i in flips],
@@ -575,6 +577,47 @@ class C02(Check):
         ctx.steps += 1
         ctx.state(("wide-register", kind, n > 53, bool(flips)))
         ctx.sample = {"entry": f"{kind} simulate, {n} qubits, integer initial state, all measured", "flips": flips}
+
+    def _wide_key_control(self, tape, ctx: Ctx, n: int, qs) -> None:
+        """One measurement key over a register wider than a machine word (the stabilizer simulators handle it),
+        and an operation conditioned on that key: the condition is about the integer the record spells."""
+        cirq = self.cirq
+        sp = __import__("engines.scripted_prng", fromlist=["x"])
+        import sympy
+        ctx.probe("entry:wide-key-control")
+        n = max(n, 60) + tape.draw(20, "extra-width")
+        qs = cirq.LineQubit.range(n)
+        target = cirq.LineQubit(n + 5)
+        ones = sorted(set(tape.draw(n, "one-at") for _ in range(1 + tape.draw(2, "n-ones"))))
+        if tape.chance(1, 2, "only-high-bits?"):
+            ones = [i for i in ones if i < n - 64] or [0]
+        value = sum(1 << (n - 1 - i) for i in ones)
+        form = tape.draw(3, "cond-form")
+        if form == 0:
+            cond, want = cirq.KeyCondition(cirq.MeasurementKey("m")), 1 if value else 0
+        elif form == 1:
+            cond, want = cirq.SympyCondition(sympy.Symbol("m") >= 2 ** 63), 1 if value >= 2 ** 63 else 0
+        else:
+            cond, want = cirq.BitMaskKeyCondition("m", target_value=value, equal_target=True), 1
+        circuit = cirq.Circuit([cirq.X(qs[i]) for i in ones], cirq.measure(*qs, key="m"),
+                               cirq.X(target).with_classical_controls(cond), cirq.measure(target, key="t"))
+        which = tape.draw(2, "stabilizer-simulator")
+
+        def leaf(prng):
+            sim = cirq.CliffordSimulator(seed=prng) if which == 0 else cirq.StabilizerSampler(seed=prng)
+            return int(sim.run(circuit, repetitions=1).measurements["t"][0][0])
+
+        for _w, got, _t in sp.explore(leaf, 4):
+            if got != want:
+                raise Violation(f"{P}-DIST", f"{'CliffordSimulator' if which == 0 else 'StabilizerSampler'}: key 'm' over {n} "
+                                             f"qubits records the integer {value} (ones at {ones}); X conditioned on "
+                                             f"{cond} gave t={got}, expected {want}")
+        ctx.decide("case", "wide-key-control", n, ones, form, which)
+        ctx.nontrivial = True
+        ctx.steps += 1
+        ctx.state(("wide-key-control", form, which, value >= 2 ** 63))
+        ctx.sample = {"entry": "classical control on a key wider than 64 qubits", "width": n, "ones": ones,
+                      "condition": str(cond)}
 
     def _sample_from_amplitudes(self, tape, ctx: Ctx) -> None:
         cirq = self.cirq
